@@ -43,8 +43,8 @@ def cq_str(s_):
 
 PID = "C13"
 PARALLEL = 12
-SHARD = 142            # cases per coqc file: the cost is parsing the case files, 16 of them run side by side
-IMPORTS_BASE = "From Verif Require Import C13.Model C13.Builders C13.Extra C13.Farg C13.Corr.\nFrom VerifGen Require Import C13Tables."
+SHARD = 170            # cases per coqc file: the cost is parsing the case files, 16 of them run side by side
+IMPORTS_BASE = "From Verif Require Import C13.Model C13.Builders C13.Extra C13.Farg C13.Release C13.Corr.\nFrom VerifGen Require Import C13Tables."
 IMPORTS = IMPORTS_BASE
 CASE_TYPE = "C13.Corr.case"
 RUNNER = "C13.Corr.run"
@@ -151,6 +151,9 @@ SUPPLEMENT_ANY = {
     "md.ExtensionsType_": ("WOther", 1), "md.Extensions": ("WOther", 1),
     "schema.soapenv.Header_": ("WAny", 0), "schema.soapenv.Header": ("WAny", 0),
     "schema.soapenv.Body_": ("WAny", 0), "schema.soapenv.Body": ("WAny", 0),
+    # saml:AttributeValue is xs:anyType: any children (AttributeConverter.to_eptid_value puts a saml:NameID there), any
+    # attributes; children with a global declaration are validated against it (lax)
+    "saml.AttributeValue": ("WAny", 0),
 }
 #  * a wildcard that stands inside a repeated choice of the schema (saml:Advice) may occur any number of times
 #    although c_any carries no maxOccurs
@@ -159,6 +162,7 @@ SUPPLEMENT_ANYATTR = {
     "schema.soapenv.Header_": "WOther", "schema.soapenv.Header": "WOther",
     "schema.soapenv.Body_": "WOther", "schema.soapenv.Body": "WOther",
     "schema.soapenv.Envelope_": "WOther", "schema.soapenv.Envelope": "WOther",
+    "saml.AttributeValue": "WAny",
 }
 #  * ds:KeyInfoType registers the member encrypted_key but writes its cardinality under the key "key_info":
 #    without this entry the member would count as "exactly one"
@@ -529,11 +533,53 @@ def _idp_md():
              (world.BINDING_SOAP, IDP_SSO_SOAP)])
 
 
-def _sp_md(enc=True):
-    keys = [("sp", "signing")] + ([("sp", "encryption")] if enc else [])
-    return world.sp_descriptor(world.SP_ID, keys, acs=[(world.BINDING_HTTP_POST, world.SP_ACS_POST, 1),
-                                                        (world.BINDING_HTTP_REDIRECT, world.SP_ACS_REDIRECT, 2),
-                                                        (world.BINDING_PAOS, SP_ACS_PAOS, 3)])
+# the KeyDescriptors the service provider publishes (cfg "_sp_keys"): what Entity.has_encrypt_cert_in_metadata /
+# _encrypt_assertion find for it.  A KeyDescriptor without `use` serves both purposes.
+SP_KEYS = {
+    "both": [("sp", "signing"), ("sp", "encryption")],
+    "signing": [("sp", "signing")],                                   # nothing to encrypt for
+    "nouse": [("sp", None)],                                          # one KeyDescriptor, no use attribute
+    "none": [],                                                       # no KeyDescriptor at all
+    "two-enc": [("sp", "signing"), ("spenc2", "encryption"), ("sp", "encryption")],
+    "enc-only": [("sp", "encryption")],
+}
+SP_KEYS_ENC = {"both": True, "signing": False, "nouse": True, "none": False, "two-enc": True, "enc-only": True}
+
+
+def _sp_keys_of(cfg):
+    return cfg.get("_sp_keys") or ("both" if cfg.get("_sp_enc_in_md", True) else "signing")
+
+
+def _sp_md(keys="both", acs_extra=""):
+    return world.sp_descriptor(world.SP_ID, SP_KEYS[keys], acs=[(world.BINDING_HTTP_POST, world.SP_ACS_POST, 1),
+                                                                (world.BINDING_HTTP_REDIRECT, world.SP_ACS_REDIRECT, 2),
+                                                                (world.BINDING_PAOS, SP_ACS_PAOS, 3)], acs_extra=acs_extra)
+
+
+def _requested_attributes_md(l):
+    """[[name, friendly name, is required], ...] -> an md:AttributeConsumingService of the SP's descriptor"""
+    if not l:
+        return ""
+    from xml.sax.saxutils import quoteattr
+
+    return ('<md:AttributeConsumingService index="1"><md:ServiceName xml:lang="en">verif sp</md:ServiceName>%s'
+            "</md:AttributeConsumingService>" % "".join(
+                '<md:RequestedAttribute Name=%s NameFormat=%s%s%s/>' % (
+                    quoteattr(n), quoteattr(NF_URI), " FriendlyName=%s" % quoteattr(f) if f else "",
+                    "" if r is None else ' isRequired="%s"' % ("true" if r else "false")) for n, f, r in l))
+
+
+# verify_encrypt_cert_advice / verify_encrypt_cert_assertion of the configuration are callables (cfg "_verify_adv" /
+# "_verify_ass" name one)
+def _verifier_accept(cert):
+    return True
+
+
+def _verifier_reject(cert):
+    return False
+
+
+VERIFIERS = {"accept": _verifier_accept, "reject": _verifier_reject}
 
 
 def sp_conf(cfg):
@@ -579,9 +625,13 @@ def idp_conf(cfg):
         "entityid": world.IDP_ID,
         "service": {"idp": sec},
         "key_file": fixtures.key_path("idp"), "cert_file": fixtures.cert_path("idp"),
-        "xmlsec_binary": env.STANDIN_PATH, "metadata": {"inline": [_sp_md(cfg.get("_sp_enc_in_md", True))]},
+        "xmlsec_binary": env.STANDIN_PATH,
+        "metadata": {"inline": [_sp_md(_sp_keys_of(cfg), _requested_attributes_md(cfg.get("_sp_requested")))]},
         "delete_tmpfiles": True,
     }
+    for k, attr in (("_verify_adv", "verify_encrypt_cert_advice"), ("_verify_ass", "verify_encrypt_cert_assertion")):
+        if cfg.get(k):
+            sec[attr] = VERIFIERS[cfg[k]]
     for k, v in cfg.items():
         if k.startswith("_"):
             continue
@@ -1268,6 +1318,13 @@ def b_attribute_response(case):
         kw["name_id"] = mk_name_id(a["name_id"])
     if a.get("status") is not None:
         kw["status"] = _status(a["status"])
+    # create_attribute_response hands its surplus keyword arguments to Entity._response as they are
+    for k in ("encrypt_assertion", "encrypt_assertion_self_contained", "encrypted_advice_attributes"):
+        if k in a:
+            kw[k] = a[k]
+    for k in ("encrypt_cert_assertion", "encrypt_cert_advice"):
+        if a.get(k):
+            kw[k] = _cert(a[k])
     if a.get("attributes") is not None:     # the Attribute elements of the query: restrict what is released
         from saml2 import saml
 
@@ -1532,7 +1589,8 @@ def observe(case):
     obs = _observe(case)
     if not case["b"].startswith("lex_"):
         xb = coq_xinfo(case, obs)
-        obs["cb"] = ["BOther" if xb != "XBNone" else coq_binfo(case, obs), xb, coq_fa(case, obs)]
+        obs["cb"] = ["BOther" if xb != "XBNone" else coq_binfo(case, obs), xb, coq_fa(case, obs), coq_enc(case, obs),
+                     coq_ept(case, obs)]
     return obs
 
 
@@ -1619,6 +1677,10 @@ def expected_exc(case):
         return "saml"                       # "Can't issue email nameids, unknown domain"
     if b in FARG_BUILDERS and a.get("farg_exc"):
         return a["farg_exc"]                # a farg the code cannot digest (labelled by the generator; Farg.v has to say so too)
+    if b in FARG_BUILDERS and a.get("enc_exc"):
+        return a["enc_exc"]                 # a configured verify_encrypt_cert_* turns the call down (Release.enc_plan says so too)
+    if b in FARG_BUILDERS and a.get("id_exc"):
+        return a["id_exc"]                  # an identity value the converters cannot digest (Release.ept_attribute says so too)
     if b in ("entity_descriptor", "entities_descriptor", "signed_entity_descriptor", "metadata_string") \
             and case["cfg"].get("metadata_key_usage") == "encryption" and "encryption_keypairs" in case["cfg"] \
             and case["cfg"]["encryption_keypairs"] is None:
@@ -1628,23 +1690,24 @@ def expected_exc(case):
 
 def coq_case(case, obs):
     if case["b"] == "lex_instant":
-        return "C13.Corr.mk (XInstant %d%%N %s) BOther XBNone None None false false VNA 0" % (case["a"]["ts"], _cq_str(obs["value"]))
+        return "C13.Corr.mk (XInstant %d%%N %s) BOther XBNone None None None None false false VNA 0" % (case["a"]["ts"], _cq_str(obs["value"]))
     if case["b"] == "lex_sid":
-        return "C13.Corr.mk (XSid %s) BOther XBNone None None false false VNA 0" % _cq_str(obs["value"])
+        return "C13.Corr.mk (XSid %s) BOther XBNone None None None None false false VNA 0" % _cq_str(obs["value"])
     if obs["tree"] is None and case.get("mut") is None and obs["exc"] != expected_exc(case):
         # an exception the unchanged tree does not raise: flagged through a case that cannot agree
-        return "C13.Corr.mk (XSid \"\") BOther XBNone None None false false VNA 0"
+        return "C13.Corr.mk (XSid \"\") BOther XBNone None None None None false false VNA 0"
     t = "None" if obs["tree"] is None else "(Some %s)" % cq_tree(obs["tree"])
     vi = {"true": "VTrue", "false": "VFalse", "crash": "VCrash", "na": "VNA"}[obs["vi"]]
     mut = 0 if case.get("mut") is None else (2 if obs["mut_kind"] in NO_CLAIM else 1)
     if obs.get("cb"):
-        b, xb, fa = obs["cb"]
+        b, xb, fa, enc, ept = obs["cb"]
     else:
         xb = coq_xinfo(case, obs)
         b = "BOther" if xb != "XBNone" else coq_binfo(case, obs)
         fa = "None"                         # the farg term needs the state of the call (computed inside observe())
-    return "C13.Corr.mk XNone %s %s %s %s %s %s %s %d" % (b, xb, fa, t,
-                                                          cq(bool(obs["xsd"])), cq(bool(obs["xsd_ext"])), vi, mut)
+        enc, ept = coq_enc(case, obs), coq_ept(case, obs)
+    return "C13.Corr.mk XNone %s %s %s %s %s %s %s %s %s %d" % (b, xb, fa, enc, ept, t,
+                                                                cq(bool(obs["xsd"])), cq(bool(obs["xsd_ext"])), vi, mut)
 
 
 def explain_term(term):
@@ -2616,6 +2679,288 @@ def gen_farg(ctx):
     return out + muts
 
 
+# ---- the encryption arguments of create_authn_response / create_attribute_response (round 5) ------------------------
+ENC_BASE = {"in_response_to": "id-1", "userid": "user-1"}
+
+
+def enc_raises(a, cfg):
+    """gather_authn_response_args: a configured verify_encrypt_cert_* callable wants a certificate and has to accept it
+    (labels the case; Release.enc_plan has to say the same)"""
+    if a.get("via") == "request_response":
+        a = {k: v for k, v in a.items() if not k.startswith("encrypt")}
+    enc = a.get("encrypt_assertion")
+    if enc is None:
+        enc = cfg.get("idp_encrypt_assertion")
+    adv = a.get("encrypted_advice_attributes", False)
+    if adv is None:
+        adv = cfg.get("idp_encrypted_advice_attributes")
+    for flag, ver, cert in ((adv or a.get("pefim"), cfg.get("_verify_adv"), a.get("encrypt_cert_advice")),
+                            (enc, cfg.get("_verify_ass"), a.get("encrypt_cert_assertion"))):
+        if flag and ver and (cert is None or ver == "reject"):
+            return True
+    return False
+
+
+def _enc_case(b, md, ea, adv, ca, cv, sc=None, cfg=None, extra=None, tag="enc"):
+    a = dict(ENC_BASE, identity=IDENTITIES[0], dest=world.SP_ACS_POST)
+    if b == "authn_response":
+        a["authn"] = AUTHNS[0]
+    if ea != _ABSENT:
+        a["encrypt_assertion"] = ea
+    if adv == "pefim":
+        a["pefim"] = True
+    elif adv == "advice":
+        a["encrypted_advice_attributes"] = True
+    elif adv == "advice-none":
+        a["encrypted_advice_attributes"] = None
+    if ca:
+        a["encrypt_cert_assertion"] = ca
+    if cv:
+        a["encrypt_cert_advice"] = cv
+    if sc is not None:
+        a["encrypt_assertion_self_contained"] = sc
+    a.update(extra or {})
+    cfg = dict(cfg or {})
+    if md != "both":
+        cfg["_sp_keys"] = md
+    if enc_raises(a, cfg):
+        a["enc_exc"] = "other:CertificateError"
+    return case(b, a, cfg, tag + "-" + b)
+
+
+def gen_enc(ctx):
+    """Which certificate is there to encrypt for: the service provider's metadata (encryption KeyDescriptor, one without
+    `use`, several, none at all) x encrypt_assertion (absent / True / False, from the call or from the configuration) x
+    PEFIM / encrypted_advice_attributes x encrypt_cert_assertion given or not x encrypt_cert_advice given or not, for
+    both entries that reach Entity._response with these arguments; self-contained off; verify_encrypt_cert_* configured;
+    signing on top.  Own generator, fixed seed."""
+    import random
+
+    rng = random.Random(50713)
+    out = []
+    # the complete product for a service provider with and without an encryption key
+    for md in ["both", "signing"]:
+        for ea in [_ABSENT, True, False]:
+            for adv in [None, "pefim", "advice"]:
+                for ca in [None, "sp"]:
+                    for cv in [None, "spenc2"]:
+                        if adv == "advice" and not ctx.thorough and ea is False:
+                            continue
+                        out.append(_enc_case("authn_response", md, ea, adv, ca, cv))
+    # create_attribute_response hands the same keywords straight to _response (no gather step, no PEFIM)
+    for md in ["both", "signing"]:
+        for ea in [_ABSENT, True]:
+            for ca in [None, "sp"]:
+                for cv in [None, "spenc2"]:
+                    out.append(_enc_case("attribute_response", md, ea, "advice" if (ca and cv) else None, ca, cv,
+                                         extra={"sign_assertion": True} if (md == "signing" and ca and not cv) else None))
+    # the other shapes of the key material in the metadata
+    for md in ["nouse", "none", "two-enc", "enc-only"]:
+        for ea, adv in [(True, None), (_ABSENT, "pefim"), (True, "pefim")]:
+            for ca, cv in [(None, None), ("sp", None), (None, "spenc2"), ("sp", "spenc2")]:
+                if not ctx.thorough and md in ("two-enc", "enc-only") and (ca, cv) == ("sp", "spenc2"):
+                    continue
+                out.append(_enc_case("authn_response", md, ea, adv, ca, cv))
+    # self-contained namespaces switched off, wherever something gets wrapped
+    for md in ["both", "signing"]:
+        for ea, adv in [(True, None), (_ABSENT, "pefim"), (True, "pefim")]:
+            for ca, cv in [(None, None), ("sp", None), (None, "sp"), ("sp", "sp")]:
+                if md == "both" and (ca, cv) in ((None, "sp"), ("sp", None)) and not ctx.thorough:
+                    continue
+                out.append(_enc_case("authn_response", md, ea, adv, ca, cv, sc=False))
+    # encrypt_assertion (and the two options nobody reads) in the configuration; create_authn_request_response
+    # forwards no encryption keyword at all
+    for md in ["both", "signing"]:
+        for cea in [True, False]:
+            for ea in [_ABSENT, True, False, None]:
+                for via in [None, "request_response"]:
+                    if via and ea not in (_ABSENT, True):
+                        continue
+                    out.append(_enc_case("authn_response", md, ea, None, "sp" if (md == "signing" and ea is None) else None, None,
+                                         cfg={"idp_encrypt_assertion": cea}, extra={"via": via} if via else None, tag="enc-config"))
+    for k in ["idp_encrypted_advice_attributes", "idp_encrypt_assertion_self_contained"]:
+        for v in [True, False]:
+            out.append(_enc_case("authn_response", "both", _ABSENT, "pefim", None, None, cfg={k: v}, tag="enc-config"))
+            out.append(_enc_case("authn_response", "signing", True, "advice-none", "sp", None, cfg={k: v}, tag="enc-config"))
+    # a configured verifier of the handed-in certificates: it wants one whenever the part is switched on
+    for vass in [None, "accept", "reject"]:
+        for vadv in [None, "accept", "reject"]:
+            if vass is None and vadv is None:
+                continue
+            for ea, adv in [(_ABSENT, None), (True, None), (_ABSENT, "pefim"), (_ABSENT, "advice"), (True, "pefim")]:
+                for ca, cv in [(None, None), ("sp", None), (None, "sp"), ("sp", "sp")]:
+                    if not ctx.thorough and rng.random() > .3:
+                        continue
+                    cfg = {}
+                    if vass:
+                        cfg["_verify_ass"] = vass
+                    if vadv:
+                        cfg["_verify_adv"] = vadv
+                    out.append(_enc_case("authn_response", _pick(rng, ["both", "signing"]), ea, adv, ca, cv, cfg=cfg, tag="enc-verify"))
+    # signing on top, for the service provider without encryption key (the complete sign x mode product above has one)
+    for sr, sa in [(True, None), (None, True), (True, True)]:
+        for ea, adv, ca, cv in [(True, None, None, "sp"), (True, None, "sp", None), (_ABSENT, "pefim", "sp", None),
+                                (_ABSENT, "pefim", None, "sp"), (True, "pefim", None, "sp"), (True, "pefim", "sp", "sp")]:
+            if not ctx.thorough and (sr, sa) == (True, True) and ca:
+                continue
+            extra = {}
+            if sr:
+                extra["sign_response"] = True
+            if sa:
+                extra["sign_assertion"] = True
+            out.append(_enc_case("authn_response", "signing", ea, adv, ca, cv, extra=extra, tag="enc-sign"))
+    # seeded mixtures with the other arguments
+    for _ in range(120 if ctx.thorough else 16):
+        b = _pick(rng, ["authn_response", "authn_response", "attribute_response"])
+        extra = {"identity": _pick(rng, IDENTITIES[:3]), "in_response_to": _pick(rng, [None] + IDS)}
+        if rng.random() < .3:
+            extra["name_id"] = _pick(rng, NAMEIDS)
+        if rng.random() < .3:
+            extra["sign_response"] = True
+        if b == "authn_response" and rng.random() < .3:
+            extra["farg"] = _sc_farg({"subject_confirmation_data": {"address": "192.0.2.7"}})
+        out.append(_enc_case(b, _pick(rng, list(SP_KEYS)), _pick(rng, [_ABSENT, True, True, False]),
+                             _pick(rng, [None, "pefim", "advice"]) if b == "authn_response" else None,
+                             _pick(rng, [None, "sp", "spenc2"]), _pick(rng, [None, "sp", "spenc2"]),
+                             sc=_pick(rng, [None, None, False]), extra=extra, tag="enc-random"))
+    muts = []
+    pool = [c for c in out if not c["a"].get("enc_exc")]
+    for _ in range(40 if ctx.thorough else 8):
+        c = copy.deepcopy(pool[rng.randrange(len(pool))])
+        c["mut"] = rng.randrange(1 << 30)
+        c["tag"] = "mut:" + c["tag"]
+        muts.append(c)
+    return out + muts
+
+
+# ---- what the identity dictionary may hold (round 5): the one attribute with a serialisation of its own ---------------
+EPTID_OID = "urn:oid:1.3.6.1.4.1.5923.1.1.1.10"
+NF_BASIC = "urn:oasis:names:tc:SAML:2.0:attrname-format:basic"
+NF_SHIB = "urn:mace:shibboleth:1.0:attributeNamespace:uri"      # the shibboleth_uri map: the same oid, hence the same special case
+_EPT_D = {"text": "opaque-0003", "NameQualifier": world.IDP_ID, "SPNameQualifier": world.SP_ID}
+# (value of eduPersonTargetedID in the identity, exception when it reaches to_eptid_value / serialisation)
+EPTID_VALUES = [
+    ("opaque-0001", None), (["opaque-0001"], None), (["opaque-0001", "opaque-0002"], None),
+    (_EPT_D, None), ([_EPT_D], None), (["opaque-0004", dict(_EPT_D, text="opaque-0005")], None),
+    ([dict(_EPT_D, text="a&b<c>\"d'"), dict(_EPT_D, text="opaque-0006", NameQualifier="urn:q:1", SPNameQualifier="urn:q:2")], None),
+    ([], None), (None, None), ("", None), ([""], None), (TEXTS[3], None),
+    ([dict(_EPT_D, text="")], None), ([dict(_EPT_D, text=None)], None), ([dict(_EPT_D, NameQualifier="", SPNameQualifier="")], None),
+    (dict(_EPT_D, Format="urn:example:format"), None), ([dict(_EPT_D, SPProvidedID="sp-prov", extra="1")], None),
+    ({"text": "opaque-0007"}, "key"), ({"text": "opaque-0007", "NameQualifier": world.IDP_ID}, "key"),
+    ({"NameQualifier": world.IDP_ID, "SPNameQualifier": world.SP_ID}, "key"), ([{}], "key"),
+    ([dict(_EPT_D, NameQualifier=None)], "type"), ([dict(_EPT_D, SPNameQualifier=None)], "type"), (7, "type"), ([True], "type"),
+]
+
+
+def _policy(nf=_ABSENT, restr=None):
+    pol = {"lifetime": {"minutes": 15}, "attribute_restrictions": restr}
+    if nf is not _ABSENT:
+        pol["name_form"] = nf
+    return {"idp_policy": {"default": pol}}
+
+
+def _id_case(b, ident, cfg=None, exc=None, extra=None, tag="identity"):
+    a = {"identity": ident, "in_response_to": "id-1", "dest": world.SP_ACS_POST}
+    if b in ("authn_response", "setup_assertion"):
+        a["authn"] = AUTHNS[0]
+    if b == "setup_assertion":
+        a["name_id"] = NAMEIDS[0]
+    else:
+        a["userid"] = "user-1"
+    a.update(extra or {})
+    if exc:
+        a["id_exc"] = exc
+        if tag == "identity-restriction":
+            a["id_exc_outside"] = True      # raised by the policy filter (a regular expression against a dict), not by the converter
+    return case(b, a, cfg or {}, tag + "-" + b)
+
+
+def gen_identity(ctx):
+    """eduPersonTargetedID - the attribute AttributeConverter.to_ serialises in its own way (a NameID inside the
+    AttributeValue) - over every spelling of its value (str, list, the documented dictionary form, mixtures, empty,
+    None, surplus / missing / None-valued keys), under every spelling of the key, name format of the policy (with
+    the oid map, another map, none), restriction and requested attributes, on every entry that builds an attribute
+    statement, signed / PEFIM on top."""
+    import random
+
+    rng = random.Random(50813)
+    out = []
+    other = [["givenName", ["Anna"]]]
+    for i, (v, exc) in enumerate(EPTID_VALUES):
+        for j, b in enumerate(FARG_BUILDERS):
+            if not ctx.thorough and j != i % 3 and not (j == 0 and isinstance(v, (dict, list)) and exc is None):
+                continue
+            ident = (other if i % 2 else []) + [["eduPersonTargetedID", v]] + ([["mail", ["a@x.org"]]] if i % 3 == 0 else [])
+            out.append(_id_case(b, ident, {}, exc))
+    # spellings of the key (the converter looks it up lower-cased; the oid itself is no key of the map)
+    for key in ["edupersontargetedid", "EDUPERSONTARGETEDID", "EduPersonTargetedId", EPTID_OID]:
+        for v, exc in [EPTID_VALUES[0], EPTID_VALUES[4], EPTID_VALUES[5], EPTID_VALUES[7]]:
+            if key == EPTID_OID:
+                exc = "value" if any(isinstance(x, dict) for x in (v if isinstance(v, list) else [v])) else None
+            out.append(_id_case("authn_response", other + [[key, v]], {}, exc, tag="identity-key"))
+    # the name format in force: default, the oid map, the basic map (another name: no special case), no map at all
+    for nf in [_ABSENT, NF_URI, NF_SHIB, NF_BASIC, "urn:oasis:names:tc:SAML:2.0:attrname-format:unspecified", "urn:example:nf"]:
+        for v, exc in [EPTID_VALUES[0], EPTID_VALUES[2], EPTID_VALUES[4], EPTID_VALUES[5], EPTID_VALUES[8]]:
+            if nf in (NF_BASIC, "urn:oasis:names:tc:SAML:2.0:attrname-format:unspecified"):
+                exc = "value" if any(isinstance(x, dict) for x in (v if isinstance(v, list) else [v])) else None
+            out.append(_id_case("attribute_response" if nf == NF_URI else "authn_response", other + [["eduPersonTargetedID", v]],
+                                _policy(nf), exc, tag="identity-nameformat"))
+    # restrictions of the policy and the attributes the service provider asks for
+    for v, _exc in [EPTID_VALUES[0], EPTID_VALUES[4], EPTID_VALUES[5]]:
+        has_dict = not isinstance(v, str)
+        for restr, exc in [({"eduPersonTargetedID": None}, None), ({"edupersontargetedid": ["^opaque"]}, "type" if has_dict else None),
+                           ({"givenName": None}, None), ({"edupersontargetedid": None, "givenname": ["^A"]}, None)]:
+            out.append(_id_case("authn_response", other + [["eduPersonTargetedID", v]], _policy(NF_URI, restr), exc,
+                                tag="identity-restriction"))
+        for req in [[[EPTID_OID, "eduPersonTargetedID", True]], [[EPTID_OID, None, False]], [["urn:oid:2.5.4.42", "givenName", True]],
+                    [[EPTID_OID, "eduPersonTargetedID", None], ["urn:oid:2.5.4.4", "sn", True]],
+                    [[EPTID_OID, "eduPersonTargetedID", True], ["urn:oid:2.5.4.42", "givenName", False]]]:
+            missing = [n for n, _f, r in req if r and n == "urn:oid:2.5.4.4"]
+            out.append(_id_case("authn_response", other + [["eduPersonTargetedID", v]], {"_sp_requested": req}, None,
+                                {"missing_required": missing[0]} if missing else None, tag="identity-requested"))
+    # an attribute authority with a policy of its own (create_attribute_response reads the "aa" section, not the idp's)
+    for nf, restr in [(NF_URI, None), (NF_SHIB, {"eduPersonTargetedID": None}), (NF_BASIC, None), (_ABSENT, {"givenName": None})]:
+        for v, exc in [EPTID_VALUES[0], EPTID_VALUES[5]]:
+            aa = {"endpoints": {"attribute_service": [("https://idp.example.org/aa", world.BINDING_SOAP)]},
+                  "policy": _policy(nf, restr)["idp_policy"]}
+            out.append(_id_case("attribute_response", other + [["eduPersonTargetedID", v]],
+                                dict(_policy(NF_BASIC), svc_aa=aa), "value" if (nf == NF_BASIC and not isinstance(v, str)) else None,
+                                tag="identity-aa"))
+    # signed / PEFIM (the attributes travel in the advice assertion) / encrypted on top
+    for v, _exc in [EPTID_VALUES[4], EPTID_VALUES[5]]:
+        ident = other + [["eduPersonTargetedID", v]]
+        out.append(_id_case("authn_response", ident, {}, None, {"sign_assertion": True}, tag="identity-signed"))
+        out.append(_id_case("authn_response", ident, {}, None, {"sign_response": True}, tag="identity-signed"))
+        out.append(_id_case("attribute_response", ident, {}, None, {"sign_assertion": True}, tag="identity-signed"))
+        out.append(_id_case("authn_response", ident, {}, None, {"pefim": True}, tag="identity-pefim"))
+        out.append(_id_case("authn_response", ident, {"_sp_keys": "signing"}, None, {"pefim": True}, tag="identity-pefim"))
+        out.append(_id_case("authn_response", ident, {"_sp_keys": "signing"}, None, {"pefim": True, "sign_assertion": True},
+                            tag="identity-pefim"))
+        out.append(_id_case("authn_response", ident, {}, None, {"encrypt_assertion": True}, tag="identity-encrypted"))
+    # dictionary-form values under an ordinary attribute, and ordinary values of unusual make
+    for key, v, exc in [("givenName", {"text": "Anna"}, "value"), ("givenName", [{"text": "Anna"}], "value"),
+                        ("mail", ["a@x.org", ""], None), ("sn", "", None), ("displayName", [TEXTS[4], TEXTS[5]], None),
+                        ("urn:example:unmapped", ["v1", "v2"], None), ("unmapped", [], None)]:
+        out.append(_id_case("authn_response", [[key, v]], {}, exc, tag="identity-values"))
+    # seeded mixtures
+    for _ in range(80 if ctx.thorough else 10):
+        vals = []
+        for _k in range(rng.randint(1, 3)):
+            vals.append(_pick(rng, ["opaque-%d" % rng.randint(1, 9), dict(_EPT_D, text=_pick(rng, TEXTS[:4])),
+                                    dict(_EPT_D, NameQualifier=_pick(rng, URLS)), ""]))
+        out.append(_id_case(_pick(rng, list(FARG_BUILDERS)),
+                            _pick(rng, IDENTITIES[:3]) + [[_pick(rng, ["eduPersonTargetedID", "edupersontargetedid"]), vals]],
+                            _pick(rng, [{}, {}, _policy(NF_URI), _policy()]), None, tag="identity-random"))
+    muts = []
+    pool = [c for c in out if not c["a"].get("id_exc")]
+    for _ in range(40 if ctx.thorough else 8):
+        c = copy.deepcopy(pool[rng.randrange(len(pool))])
+        c["mut"] = rng.randrange(1 << 30)
+        c["tag"] = "mut:" + c["tag"]
+        muts.append(c)
+    return out + muts
+
+
 def gen_lex(ctx, rng):
     out = []
     day = 86400
@@ -2649,7 +2994,7 @@ def generate(ctx):
         c["mut"] = rng.randrange(1 << 30)
         c["tag"] = "mut:" + c["tag"]
         muts.append(c)
-    return cases + muts + gen_lex(ctx, rng) + gen_farg(ctx)
+    return cases + muts + gen_lex(ctx, rng) + gen_farg(ctx) + gen_enc(ctx) + gen_identity(ctx)
 
 
 def nontrivial(case_, obs):
@@ -2724,6 +3069,13 @@ UNDER_THEOREM = {
         "c13_update_farg_method_set, c13_update_farg_method, c13_update_farg_in_response_to, c13_update_farg_recipient (what "
         "the caller set is kept, what was left out or None gets the default), c13_farg_subject_method_present (no domain "
         "restriction), c13_farg_subject_valid, c13_farg_subject_default_valid, c13_farg_sample",
+    "Entity._response + Server.gather_authn_response_args / _authn_response (which assertion is moved into an "
+    "EncryptedAssertion and whether _encrypt_assertion finds a certificate for it: every combination of entry, metadata "
+    "key, call arguments, configuration, configured verifiers)":
+        "c13_enc_no_clear_wrapper, c13_clear_wrapper_invalid, c13_enc_main, c13_enc_advice, "
+        "c13_enc_main_independent_of_advice_cert, c13_enc_advice_independent_of_assertion_cert, c13_enc_sample",
+    "AttributeConverter.to_ / to_eptid_value (the eduPersonTargetedID Attribute from a str / dictionary / list value)":
+        "c13_eptid_nameid_shape, c13_eptid_attribute_valid, c13_eptid_attribute_total, c13_eptid_sample",
     "xs:ID uniqueness as evaluated on every emitted document": "c13_ids_unique_reflect",
     "s_utils.sid / time_util.instant": "c13_sid_lexical, c13_instant_lexical",
     "SamlBase._to_element_tree (every class, every object)": "c13_serialiser + c13_table_consistent",
@@ -2766,6 +3118,19 @@ RULE = ("quick: complete AllowCreate lattice nameid_format(4) x configured forma
         "and 3 calls in a row, sign_response / sign_assertion / encryption / PEFIM (also without encryption certificate) on top, "
         "the `attributes` restriction of create_attribute_response, seeded mixtures (own generator, fixed seed: the cases drawn "
         "before are unchanged); "
+        "what there is to encrypt for: KeyDescriptors of the service provider (signing + encryption, signing only, one without "
+        "use, none, two for encryption, encryption only) x encrypt_assertion (absent / True / False / None; from the call or "
+        "the configuration) x PEFIM / encrypted_advice_attributes x encrypt_cert_assertion given or not x encrypt_cert_advice "
+        "given or not - completely for a service provider with and without encryption key on create_authn_response, the "
+        "keyword product on create_attribute_response (which hands them straight to _response) -, self-contained off, "
+        "create_authn_request_response (forwards none of them), verify_encrypt_cert_advice / _assertion configured (accepting / "
+        "rejecting; sampled), signing on top, seeded mixtures; "
+        "eduPersonTargetedID in the identity: 25 spellings of the value (str, list, the documented dictionary, mixtures, empty, "
+        "None, surplus / missing / None-valued keys, non-str) on the three entries, 4 spellings of the key + the oid itself, 6 "
+        "name formats of the policy (two maps with the oid, two with another name, none, default), restrictions (plain, "
+        "regular expression), RequestedAttributes of the service provider (required / optional / another one missing), an "
+        "attribute authority with a policy of its own, signed / PEFIM / encrypted on top, dictionary-form values under an "
+        "ordinary attribute, seeded mixtures (both: own generators, fixed seeds); "
         "metadata generation over roles x ui_info / organisation / contacts / entity attributes "
         "and categories / eIDAS options / endpoints / key usage / signing; seeded random mixtures; plus one injected defect "
         "(swap, drop / duplicate child, drop / corrupt / add attribute, foreign child, stray text) into a sample of the outputs; "
@@ -2782,8 +3147,8 @@ TRUSTED = ["xmlschema + the XSD documents shipped in saml2/data/schemas (the ora
            "every emitted document)",
            "independent reader (xml.etree) and abstraction in harness/c13.py; base64 payloads longer than 96 characters are "
            "cut to nine groups (alphabet, alignment and padding preserved)",
-           "hand-written supplements to the class tables (wildcards of Extensions / SOAP Header, Body; eIDAS isRequired "
-           "type): listed in coverage.tables.supplements_to_the_class_tables and validated against the schemas by the "
+           "hand-written supplements to the class tables (wildcards of Extensions / SOAP Header, Body; saml:AttributeValue "
+           "as xs:anyType; eIDAS isRequired type): listed in coverage.tables.supplements_to_the_class_tables and validated against the schemas by the "
            "correspondence"]
 ASSUMPTIONS = [
     "level: proof for the structural part (class-table order, occurrence bounds, required / declared attributes, lexical "
@@ -2805,6 +3170,11 @@ ASSUMPTIONS = [
     "farg: a str leaf has the lexical form of the attribute it becomes (in_response_to an NCName, not_before a dateTime in "
     "the library's own UTC spelling - valid_instance rejects fractions / offsets -, method a non-empty URI); the NameID of the "
     "subject (identifier database) is taken as observed and policy.not_on_or_after() from the Conditions of the same assertion",
+    "encryption plan: the KeyDescriptors of the service provider are the ones the harness wrote into its metadata "
+    "(SP_KEYS / SP_KEYS_ENC), a handed-in certificate is a PEM certificate the stand-in can use; which certificate the "
+    "cipher data was made for is not part of this property (C16)",
+    "eduPersonTargetedID: values are str / None / dictionaries of str (or None) / lists of those; other Python types raise "
+    "(recorded, not judged)",
     "a call that raises emits nothing: recorded in the histogram (exceptions), not judged",
 ]
 
@@ -3045,6 +3415,15 @@ def bi_response(case, obs):
     if tuple(t[0]) != (SAMLP_NS, "Response"):
         return "BOther"
     sign = a.get("sign_response", a.get("sign"))
+    if case["b"] == "authn_response" and a.get("missing_required"):
+        # the service provider requires an attribute the identity lacks: create_authn_response answers with
+        # create_error_response(in_response_to, destination, info=<the MissingValue>, sign=sign_response)
+        code, message = _error_info({"kind": "exc", "exc": "MissingValue",
+                                     "message": "Required attribute missing: '%s'" % a["missing_required"]})
+        st = "(StNested %s %s %s)" % (cq_str("urn:oasis:names:tc:SAML:2.0:status:Responder"), cq_str(code), cq_ostr(message))
+        return ("(BResponse (Build_rs_args %s %s %s %s [] [] %s %s))" % (
+            cq_str(world.IDP_ID), st, cq_ostr(a.get("in_response_to")), cq_ostr(a.get("dest")),
+            cq_signing(sign, bool(case["cfg"].get("idp_sign_response"))), cq_observed(t)))
     status = None if a.get("via") == "request_response" else a.get("status")
     return ("(BResponse (Build_rs_args %s %s %s %s "
             "%s %s %s %s))" % (
@@ -3294,6 +3673,87 @@ def coq_fa(case, obs):
     try:
         return "(Some (Build_fa_args %s %s %s %s %s))" % (cq_farg(farg), cq_ostr(a.get("in_response_to")), cq_ostr(url),
                                                          cq_otree(nid), cq_str(noa))
+    except NotModelled:
+        return "None"
+
+
+# ------------------------------------------------------------------------------- Release.v: encryption plan, eduPersonTargetedID
+def cq_obool(v):
+    if v is None:
+        return "None"
+    if isinstance(v, bool):
+        return "(Some %s)" % cq(v)
+    raise NotModelled("not a bool: %r" % (v,))
+
+
+def coq_enc(case, obs):
+    """option enc_args: every call of create_authn_response / create_authn_request_response / create_attribute_response.
+    Everything is read off the CASE (arguments, configuration, the KeyDescriptors the harness gave the service provider);
+    Coq reads the outcome off the document."""
+    a, cfg = case["a"], case["cfg"]
+    if case.get("mut") is not None or case["b"] not in ("authn_response", "attribute_response"):
+        return "None"
+    if obs["tree"] is None and not (a.get("enc_exc") and obs["exc"] == a["enc_exc"]):
+        return "None"                       # the call raised for a reason of its own (labelled elsewhere)
+    entry = "EAttribute" if case["b"] == "attribute_response" else "EAuthnVia" if a.get("via") == "request_response" else "EAuthn"
+    verify = {None: None, "accept": True, "reject": False}
+    try:
+        adv_kw = a["encrypted_advice_attributes"] if "encrypted_advice_attributes" in a else (None if entry == "EAttribute" else False)
+        return "(Some (Build_enc_args %s %s %s %s %s %s %s %s %s %s %s))" % (
+            entry, cq(SP_KEYS_ENC[_sp_keys_of(cfg)]), cq_obool(a.get("encrypt_assertion")), cq_obool(cfg.get("idp_encrypt_assertion")),
+            cq_obool(adv_kw), cq_obool(cfg.get("idp_encrypted_advice_attributes")), cq(bool(a.get("pefim"))),
+            cq(bool(a.get("encrypt_cert_advice"))), cq(bool(a.get("encrypt_cert_assertion"))),
+            cq_obool(verify[cfg.get("_verify_adv")]), cq_obool(verify[cfg.get("_verify_ass")]))
+    except NotModelled:
+        return "None"
+
+
+EPTID_NAME_FORMATS = (NF_URI, NF_SHIB)       # the shipped maps that know eduPersonTargetedID by its oid
+
+
+def cq_eptv(v):
+    if v is None:
+        return "ENone"
+    if isinstance(v, str):
+        return "(EStr %s)" % cq_str(v)
+    if isinstance(v, dict) and all(isinstance(k, str) and (x is None or isinstance(x, str)) for k, x in v.items()):
+        return "(EDict [%s])" % "; ".join("(%s, %s)" % (cq_str(k), cq_ostr(x)) for k, x in v.items())
+    raise NotModelled("eptid value %r" % (v,))
+
+
+def _policy_in_force(case):
+    """the "default" entry of the release policy the entry consults: create_attribute_response reads the policy of the
+    attribute-authority section ("aa"; without one it falls back to an empty Policy), the others the idp section's"""
+    cfg = case["cfg"]
+    if case["b"] == "attribute_response":
+        return (((cfg.get("svc_aa") or {}).get("policy") or {}).get("default")) or {}
+    return ((cfg.get("idp_policy") or {}).get("default")) or {}
+
+
+def coq_ept(case, obs):
+    """option (ept_args * bool): the identity has eduPersonTargetedID (any spelling of the key) and the policy's name
+    format has a map that knows it by its oid.  released: no restriction of the policy / no attribute list of the
+    service provider / no `attributes` argument stands in the way (otherwise only: IF the element is there it is the
+    model's)."""
+    a, cfg = case["a"], case["cfg"]
+    if case.get("mut") is not None or case["b"] not in FARG_BUILDERS or not a.get("identity"):
+        return "None"
+    keys = [k for k, _v in a["identity"] if isinstance(k, str) and k.lower() == "edupersontargetedid"]
+    if len(keys) != 1 or a.get("id_exc_outside"):
+        return "None"
+    pol = _policy_in_force(case)
+    nf = pol.get("name_form", NF_URI)
+    if nf not in EPTID_NAME_FORMATS:
+        return "None"
+    if obs["tree"] is None and not (a.get("id_exc") and obs["exc"] == a["id_exc"]):
+        return "None"
+    restr = pol.get("attribute_restrictions")
+    released = not cfg.get("_sp_requested") and not a.get("attributes") and (
+        restr is None or any(k.lower() == "edupersontargetedid" and r is None for k, r in restr.items()))
+    v = dict(a["identity"])[keys[0]]
+    try:
+        vin = "(EMany [%s])" % "; ".join(cq_eptv(x) for x in v) if isinstance(v, list) else "(EOne %s)" % cq_eptv(v)
+        return "(Some (Build_ept_args %s %s %s, %s))" % (cq_str(nf), cq_str(keys[0]), vin, cq(bool(released)))
     except NotModelled:
         return "None"
 
